@@ -183,6 +183,7 @@ def _sfs_bnl_core(data, sorted_idx, offsets, n_total_groups, result_mask):
             # 2D: sort by col0, group-aware sweep
             order = np.argsort(local[:n, 0], kind="mergesort")
             best_c1 = numba.float64(1e308)
+            first_group = True
             i_start = numba.int64(0)
             while i_start < n:
                 c0_val = local[order[i_start], 0]
@@ -193,11 +194,14 @@ def _sfs_bnl_core(data, sorted_idx, offsets, n_total_groups, result_mask):
                     if v < g_min_c1:
                         g_min_c1 = v
                     i_end += 1
-                if g_min_c1 < best_c1:
+                # The rows with the smallest col0 are never dominated, whatever their
+                # col1 (it may be inf, which is not below any finite sentinel)
+                if first_group or g_min_c1 < best_c1:
                     for k in range(i_start, i_end):
                         if local[order[k], 1] == g_min_c1:
                             result_mask[group_idx[order[k]]] = True
                     best_c1 = g_min_c1
+                    first_group = False
                 i_start = i_end
             continue
 
